@@ -405,6 +405,12 @@ func c28Check(layers []c28Layer, bs c28Setting, pools []c28Pool, localSubnet str
 	if err != nil {
 		return out, "HARNESS-GAP: processIPPools failed: " + err.Error()
 	}
+	return c28Judge(layers, fs, felix, bs, pools, filters)
+}
+
+// c28Judge compares Felix's decisions with BIRD's kernel-filter statements (however obtained).
+func c28Judge(layers []c28Layer, fs c28Setting, felix c28Felix, bs c28Setting, pools []c28Pool, filters map[int][]string) (c28Outcome, string) {
+	var out c28Outcome
 	fe, be := c28Effective(fs, c28FelixDefault), c28Effective(bs, c28BGPDefault)
 	out.Supported = c28Supported[fe] == be
 	describe := func() string {
